@@ -500,11 +500,10 @@ def real_pools(res, tier, seed):
     server = None
     kinds = [WorkerType.THREAD, WorkerType.PROCESS]
     host = {}
-    if tier == 'thorough':
-        from pyworkers.remote_server import spawn_server
-        server = spawn_server(('127.0.0.1', 0))
-        kinds.append(WorkerType.REMOTE)
-        host = dict(host=server.addr)
+    from pyworkers.remote_server import spawn_server
+    server = spawn_server(('127.0.0.1', 0))
+    kinds.append(WorkerType.REMOTE)
+    host = dict(host=server.addr)
     scenarios = [
         ('healthy-two-runs-exit', ['add', 'add', 'run', 'run', 'exit']),
         ('stuck-worker-exit', ['add', 'add_stuck', 'busy_stuck', 'exit']),
@@ -521,6 +520,8 @@ def real_pools(res, tier, seed):
     try:
         for name, steps in scenarios:
             for kind in kinds[1:]:
+                if kind == WorkerType.REMOTE and tier != 'thorough' and 'lingers' not in name:
+                    continue       # quick: the remote kind only where it differs most from the process kind
                 hook = {'fail': False}
 
                 class P(Pool):
